@@ -324,6 +324,22 @@ func checkC13(c *Check) {
 			c.Bad(p.FuncKey(mW)+":head-guard", p.Pos(u.Pos()), "body bytes can be forwarded for HEAD requests", path)
 		}
 	}
+	// converse: a non-HEAD Write always forwards (no status- or size-dependent filter drops the body)
+	{
+		notHead := edgesWhere(mW, cCmp(token.NEQ, vField(vParam(mW, 0), "method"), vConstStr("HEAD")), false)
+		var us []ssa.Instruction
+		for _, u := range under["Write"] {
+			if u.Parent() == mW {
+				us = append(us, u)
+			}
+		}
+		in, path := Query{Fn: mW, Cut: notHead, Avoid: inSet(us)}.FromEntry(isReturn)
+		if in == nil && len(us) > 0 {
+			c.OK(p.FuncKey(mW)+":always-forwards", p.FuncPos(mW), "for methods other than HEAD every path through Write reaches the underlying Write", numInstrs(mW))
+		} else {
+			c.Bad(p.FuncKey(mW)+":always-forwards", p.FuncPos(mW), "Write can return without forwarding the bytes although the request is not HEAD (e.g. a status-dependent filter): callers that rendered a body lose it", blockPath(path))
+		}
+	}
 	nSize := 0
 	for _, u := range p.FieldUses(fSize) {
 		if u.Kind == "load" || u.Fresh {
